@@ -482,7 +482,7 @@ def extra_phase(tier, base_seed):
         for hsd in ("0", "4242"):
             p = subprocess.run([sys.executable, "-W", "ignore", os.path.join(code, "pcfg_guesser.py"), "-r", "R", "-m", "random_walk",
                                 "-n", "25"], stdin=subprocess.DEVNULL, capture_output=True, timeout=120,
-                               env=dict(os.environ, PYTHONHASHSEED=hsd, PYTHONUTF8="1"))
+                               env=scratch.child_env(PYTHONHASHSEED=hsd, PYTHONUTF8="1"))
             outs.append(p.stdout)
             out["fresh_interpreter_runs"] += 1
         if outs[0] != outs[1] or outs[0].count(b"\n") != 25:
